@@ -132,6 +132,59 @@ func Tokens(t *rapid.T, src string, maxEdits int) string {
 	return Join(ps)
 }
 
+// DropAll removes every occurrence of one drawn token spelling (all commas, all ')' ...): one long run of
+// tokens without its separators typically becomes a single large Bad node.
+func DropAll(t *rapid.T, src string) string {
+	ps := Split(src)
+	if len(ps) == 0 {
+		return src
+	}
+	victim := rapid.SampledFrom([]string{",", ",", ")", "(", "=", "AS", ".", "]"}).Draw(t, "dropall")
+	var out []Piece
+	for _, p := range ps {
+		if strings.EqualFold(p.Raw, victim) {
+			out = append(out, Piece{Lead: " "})
+			continue
+		}
+		out = append(out, p)
+	}
+	return Join(out)
+}
+
+// Repeat builds a long input out of n copies of a (usually broken) fragment joined by a separator,
+// optionally inside brackets: many independent recoveries in one parse.
+func Repeat(t *rapid.T, frag string, maxN int) string {
+	n := rapid.IntRange(2, maxN).Draw(t, "repeat.n")
+	form := rapid.SampledFrom([]string{";", ";\n", "[,]", "(,)", "f(,)", "SELECT ,", "IN(,)", "{,}"}).Draw(t, "repeat.form")
+	var b strings.Builder
+	open, sep, close := "", ";", ""
+	switch form {
+	case ";\n":
+		sep = ";\n"
+	case "[,]":
+		open, sep, close = "[", ", ", "]"
+	case "(,)":
+		open, sep, close = "(", ", ", ")"
+	case "f(,)":
+		open, sep, close = "f(", ", ", ")"
+	case "SELECT ,":
+		open, sep, close = "SELECT ", ", ", " FROM t"
+	case "IN(,)":
+		open, sep, close = "x IN (", ", ", ")"
+	case "{,}":
+		open, sep, close = "NEW T {", ", ", "}"
+	}
+	b.WriteString(open)
+	for i := 0; i < n; i++ {
+		if i > 0 {
+			b.WriteString(sep)
+		}
+		b.WriteString(frag)
+	}
+	b.WriteString(close)
+	return b.String()
+}
+
 // Truncate cuts src at a drawn byte offset.
 func Truncate(t *rapid.T, src string) string {
 	if len(src) == 0 {
